@@ -73,6 +73,17 @@ CLAIMED = {
             'contracts; trajectories are opaque records; negative store indices not covered',
             'contract-based deductive verification: AST->z3 VCs of the real source, representation invariant + '
             'per-operation contracts', 'DESIGN 2 C07'),
+    'C09': ('proof',
+            'The real merge() is executed over a ghost file system for 1..3 inputs of symbolic sizes (explicit list and numbered '
+            'pattern, names not in sorted order), the merged directory is then opened by the real constructor and read with a '
+            'symbolic index: length = sum of the parts, i-th trajectory = the corresponding input trajectory, out of range '
+            'refused; inputs with different field sets or mixed indexability refused; the merged flight-id index maps every id to '
+            'its row shifted by the earlier parts\' sizes. The (file, local row) location arithmetic of _load_trajectory is '
+            'proved separately for an unbounded number of parts from the cumulative-size invariant.',
+            'ghost file system / JSON / netCDF models, bisect_left, sorted (ordered permutation), TrajectoryStore.open inside merge '
+            'by its contract (C07/C08), value layer by C03; the end-to-end units bound the number of parts to 3 and the per-part '
+            'index tables to 2 entries (sizes, indices and ids symbolic)',
+            'contract-based deductive verification: AST->z3 VCs of the real source over ghost state', 'DESIGN 2 C09'),
 }
 REASONS_TODO = 'check not built yet (work in progress; see DESIGN.md section 2)'
 
